@@ -56,6 +56,11 @@ def run(res, replay=None):
                       'migration_rates': {'a>b': {'0.0': 0.5}, 'b>a': {'0.0': 0.25}},
                       'late_events': [{'type': 'MigrationRateChange', 'source': 'a', 'dest': 'b', 'time': 0.0, 'rate': 2.0},
                                       {'type': 'PopSizeChange', 'pop': 'b', 'time': 0.5, 'size': 0.5}], 'designed': 'late_event'})
+    if not replay:
+        # designed: a time scale of millions of time units (N = 2^21, n = 2: the median is N ln 2 = 1.45e6 time units, the 99% quantile
+        # 9.7e6): whatever bounds the search for the bracket of a quantile must not be an absolute number of time units
+        specs.append({'n_items': [['a', 2]], 'model': {'kind': 'kingman'}, 'pop_sizes': {'a': {'0.0': 2097152.0}},
+                      'designed': 'large_time_scale', 'time_scale': 2097152.0})
     qs_levels = [0.05, 0.5, 0.9, 0.99]
     NS = 4      # number of single-time cdf calls per configuration
     cases = []
@@ -69,7 +74,7 @@ def run(res, replay=None):
         ops = [{'kind': 'cdf', 'ts': ts}] + [{'kind': 'cdf', 'ts': [t]} for t in scal] + \
               [{'kind': 'quantile', 'q': q} for q in qs_levels] + \
               [{'kind': 'pdf', 'ts': [0.25, 1.0, 2.5, 0.0], 'dx': 2.0 ** -12}, {'kind': 'attr', 'path': 'tree_height.mean'},
-               {'kind': 'cdf', 'ts': grid}, {'kind': 'cdf', 'ts': [1e3, 1e4]}]
+               {'kind': 'cdf', 'ts': grid}, {'kind': 'cdf', 'ts': [1e3 * s.get('time_scale', 1.0), 1e4 * s.get('time_scale', 1.0)]}]
         cases.append({'spec': s, 'ops': ops, 'ts': ts, 'far_pos': ts.index(far)})
     outs = C.run_impl_parallel('numeric.py', [{'cases': [{'spec': c['spec'], 'ops': c['ops']}]} for c in cases])
     bodies, keep = [], []
